@@ -30,15 +30,20 @@ CLAIMS = {
         ' contains() of each bound is numerically what it says (C07 leaf assumption).'),
     'C02': dict(
         technique='lockstep path analysis over per-shell records; dirty=>recompute post-dominance '
-                  'on CFGs; def-use agreement of proposal accounting and exploration boundary',
+                  'on CFGs; def-use agreement of proposal accounting and exploration boundary; '
+                  'symbolic normalisation of the estimator formulas to linear forms',
         text='Decides the bookkeeping clauses: per-shell records (bounds, points, log_l, blobs, '
              'six statistic arrays) are created and removed together on every bounded path; every '
              'write to an input of update_shell_info is followed by its recomputation; '
              'update_shell_info is a pure recomputation; proposals are counted before filtering '
              'and that count is what shell_n_sample receives; posterior() and the statistics use '
              'the same exploration boundary; the view arrays of posterior() are sliced and '
-             'repeated together.  The estimator formulas themselves are not decided.',
-        ref='DESIGN.md section 4 C02, rules L1 L1d T3 T8 Q3 A2 A6 L5', note=TRUST),
+             'repeated together; and, as exact linear forms in the log domain, the formulas are '
+             'the importance-sampling estimators of the held samples: shell volume = bound volume '
+             'x kept fraction, evidence term = sum_j L_j V_b/N, Kish size per shell and overall, '
+             'per-sample weights that sum to the evidence term and are normalised by their own '
+             'sum.  Floating-point evaluation of the formulas and eta are not decided.',
+        ref='DESIGN.md section 4 C02 and 10.9, rules L1 L1d T3 T8 Q3 A2 A6 L5 U1 A8 P4 E', note=TRUST),
     'C03': dict(
         technique='lockstep path analysis (same mask / index / source on parallel arrays), '
                   'ordered-map and batch-axis lints on the evaluation path, copy-provenance rule',
@@ -185,12 +190,17 @@ CLAIMS.update({
              'ellipsoids or points, and every change is followed by reset().',
         ref='DESIGN.md section 4 C13, rules L1 L1d L6 L0 T1 T9', note=TRUST),
     'C14': dict(
-        technique='lockstep rule on local view arrays; purity / parameter-guarded draw',
+        technique='lockstep rule on local view arrays; purity / parameter-guarded draw; '
+                  'path-wise symbolic evaluation of the repeat counts',
         text='Decides: the same repeat counts are applied on axis 0 to points, log-likelihoods '
              'and blobs, weights are rebuilt to the resampled length, nothing else reorders one '
-             'of them; posterior() writes no state and draws only under equal_weight.  The '
-             'stochastic-rounding arithmetic is not decided.',
-        ref='DESIGN.md section 4 C14, rules L5 F1 Q4', note=TRUST),
+             'of them; posterior() writes no state and draws only under equal_weight; on every path '
+             'the multiplicity applied to each view array has the stochastic-rounding form '
+             'floor(r) + [u < r - floor(r)] (or floor(r + u)) with r = exp(log_w - max) * boost '
+             'and one double-precision uniform per row, a Bernoulli-only mask being admitted only '
+             'under branch conditions that force boost < 1.  That NumPy floor/compare/repeat do '
+             'what their names say is assumed.',
+        ref='DESIGN.md section 4 C14 and 10.9, rules L5 F1 Q4 Q5', note=TRUST),
     'C16': dict(
         technique='abstract interpretation: interval domain with open/closed ends and float-mod '
                   'transfer function; linear-form comparison of forward and inverse shift; '
